@@ -49,7 +49,44 @@ NOT_DECIDED = [
 ]
 
 
+def _declared_attributes_verbatim(ctx):
+    """the decorator stores what was declared: `func.steps_required`,
+    `func.steps_optional` (and the other attributes) are the decorator's
+    arguments themselves, unconditionally - a filtered or conditional
+    store makes the order rules the library follows differ from the
+    declared ones"""
+    pre = ctx.repo.mod("preproc")
+    f = pre.func("preprocessing_step.attribute_setter")
+    outer = pre.func("preprocessing_step")
+    oparams = func_params(outer)
+    n = 0
+    for st in walk_no_nested(f, False):
+        if not isinstance(st, ast.Assign):
+            continue
+        for t in st.targets:
+            if isinstance(t, ast.Attribute) and isinstance(
+                    t.value, ast.Name) and t.attr in oparams:
+                n += 1
+                conds_ = [a for a in conditions_at(st)
+                          if not isinstance(a.origin, ast.Assert)]
+                ok = isinstance(st.value, ast.Name) and \
+                    st.value.id == t.attr and not conds_
+                ctx.check(ok, st, f"func.{t.attr} = the declared {t.attr}",
+                          f"the step decorator stores `{norm(st.value)[:50]}`"
+                          + (" (conditionally)" if conds_ else "")
+                          + f" as `{t.attr}` instead of the declared value: "
+                          "autosort and check_order then follow other order "
+                          "rules than the ones the steps declare (e.g. an "
+                          "optional predecessor registered later is dropped)")
+    ctx.floor("attributes stored by the step decorator", n, 4)
+
+
 def r1_graph(ctx):
+    _declared_attributes_verbatim(ctx)
+    _r1_graph(ctx)
+
+
+def _r1_graph(ctx):
     steps = facts.preprocessing_steps(ctx.repo)
     ctx.floor("declared preprocessing steps", len(steps), 6)
     ids = [k.get("identifier") for f, k, d in steps]
